@@ -8,9 +8,10 @@ Theorem normpath_idempotent : forall p, normpath (normpath p) = normpath p.
 Proof. exact normpath_idempotent_proof. Qed.
 Print Assumptions normpath_idempotent.
 
-(* every constructor and every operation keeps the keys unique and normalised *)
+(* every constructor and every operation (also one that raises half-way through an in-place bulk
+   update) keeps the keys unique and normalised *)
 Theorem ops_preserve_wf :
-  (forall m l, wf (mk_cset m l)) /\ forall s o, wf s -> wf (snd (fst (step s o))).
+  (forall m l, wf (mk_cset m l)) /\ forall s o, wf s -> wf (snd (step s o)).
 Proof. exact ops_preserve_wf_proof. Qed.
 Print Assumptions ops_preserve_wf.
 
